@@ -24,6 +24,8 @@
 -/
 import YtkModel.Generated.Constants
 import YtkProofs.Patch
+import YtkProofs.GapPatch
+import YtkModel.GapDiffPatch
 import YtkProofs.HeapPatch
 import YtkProofs.HeapPatchAbs
 import YtkProofs.Decisions
@@ -717,5 +719,115 @@ theorem nonvacuous_heap_patch_abs_hyps :
       exact hleaf
 
 end refine
+
+end Ytk.C09
+
+/-! ## gap7a: the reference is the RFC — the remaining failure conditions and the derived operations -/
+namespace Ytk.C09
+open Ytk.Ptr Ytk.Patch
+
+/-- 4.2 / 4.3 "the target location MUST exist": remove and replace of a location that does not resolve
+    fail — for every document, whatever the reason (missing member, index out of range, missing parent,
+    scalar in the way). -/
+theorem rfc_missing_target_fails (d : Node) (p : Path) (v : Node) (hp : p ≠ []) (htok : ∀ t ∈ p, tokOk t = true)
+    (h : getTok d p = none) :
+    rfc6902 { op := "remove", frm := none, path := some p, value := none } d = none ∧
+    rfc6902 { op := "replace", frm := none, path := some p, value := some v } d = none ∧
+    rfc6902 { op := "test", frm := none, path := some p, value := some v } d = none ∧
+    rfc6902 { op := "move", frm := some p, path := some p, value := none } d = none ∧
+    rfc6902 { op := "copy", frm := some p, path := some p, value := none } d = none := by
+  refine ⟨by simpa [rfc6902] using rRemove_missing hp htok h, by simpa [rfc6902] using rReplace_missing v hp htok h,
+    by simp [rfc6902, h], by simp [rfc6902, h], by simp [rfc6902, h]⟩
+
+/-- 4.1 "the object containing the target MUST exist": add below a parent that does not resolve fails. -/
+theorem rfc_add_missing_parent_fails (d : Node) (p : Path) (v : Node) (hp : p ≠ []) (htok : ∀ t ∈ p, tokOk t = true)
+    (h : getTok d (parent p) = none) :
+    rfc6902 { op := "add", frm := none, path := some p, value := some v } d = none := by
+  simpa [rfc6902] using rAdd_missing_parent v hp htok h
+
+/-- 4.3: replace of an existing location succeeds and the location then holds the new value. -/
+theorem rfc_replace_then_get (d n v : Node) (p : Path) (hp : p ≠ []) (htok : ∀ t ∈ p, tokOk t = true)
+    (h : getTok d p = some n) :
+    ∃ d', rfc6902 { op := "replace", frm := none, path := some p, value := some v } d = some d' ∧
+      getTok d' p = some v := by
+  obtain ⟨d', h1, h2⟩ := rReplace_present v hp htok h
+  exact ⟨d', by simpa [rfc6902] using h1, h2⟩
+
+/-- 4.2 on an object member: after a successful remove the location no longer resolves. -/
+theorem rfc_remove_member_gone (d d' : Node) (p : Path) (kvs : AMap Node) (hd : d.Valid) (hp : p ≠ [])
+    (htok : ∀ t ∈ p, tokOk t = true) (hpar : getTok d (parent p) = some (.cont kvs))
+    (h : rfc6902 { op := "remove", frm := none, path := some p, value := none } d = some d') :
+    getTok d' p = none :=
+  rRemove_member_gone hd.1 hp htok hpar (by simpa [rfc6902] using h)
+
+/-- 4.5: copy is "identical to an add at the target location using the value at from". -/
+theorem rfc_copy_is_add (d : Node) (f p : Path) (v : Option Node) :
+    rfc6902 { op := "copy", frm := some f, path := some p, value := v } d =
+      match getTok d f with
+      | some n => rfc6902 { op := "add", frm := none, path := some p, value := some n } d
+      | none => none := by
+  simp only [rfc6902]
+  cases getTok d f <;> simp
+
+/-- 4.4: move is "identical to a remove on from, followed immediately by an add at the target location
+    with the value that was just removed" (when from is not a proper prefix of path). -/
+theorem rfc_move_is_remove_then_add (d n : Node) (f p : Path) (v : Option Node) (hn : getTok d f = some n)
+    (hpre : isProperPrefix f p = false) :
+    rfc6902 { op := "move", frm := some f, path := some p, value := v } d =
+      match rfc6902 { op := "remove", frm := none, path := some f, value := none } d with
+      | some d1 => rfc6902 { op := "add", frm := none, path := some p, value := some n } d1
+      | none => none := by
+  simp only [rfc6902, hn, hpre]
+  cases rRemove d f <;> simp
+
+/-- non-vacuity on `exDoc`: a missing member, an index out of range, a location below a scalar -/
+theorem nonvacuous_missing_target :
+    getTok exDoc ["b", "z"] = none ∧ getTok exDoc ["a", "2"] = none ∧ getTok exDoc ["c", "k"] = none ∧
+    getTok exDoc (parent ["q", "r"]) = none ∧ getTok exDoc ["b", "x"] = some (l "1") ∧
+    (["b", "z", "a", "2", "c", "k", "q", "r", "x"].all tokOk) = true := by
+  decide +kernel
+
+end Ytk.C09
+
+/-! ## gap7a: diff.Diff → xform.DiffMod2PatchOp → patch.Do, end to end (C07 / C08 × C09)
+
+  `diffPatch L R` (YtkModel/GapDiffPatch.lean) converts every modification of `Diff(L, R)` with the
+  model's `Xform.mod2op` and `PointerFromPropPathString`; `applyDiffPatch L R` runs the operations on R
+  with successive `patch.Do` calls.  The tempting end-to-end statement "applying to R the RFC 6902
+  patch obtained from Diff(L, R) yields a document whose flatten equals flatten L" (the analogue of
+  C08's `apply_diff_flatten`) is FALSE, already on C08's domain: `diff.Apply` CREATES missing parents
+  (and re-creates a list it has just deleted), RFC 6902 `add` REQUIRES the parent to exist. -/
+namespace Ytk.C09
+open Ytk.Patch
+
+/-- (a) an added subtree two levels deep: Diff reports one Add per LEAF (`a.b`), the converted
+    operation is `add /a/b`, whose parent `/a` does not exist in R — the patch fails and R stays as it
+    was, while `diff.Apply` reconstructs L.  (b) a replaced list: Diff reports `Delete l` followed by
+    `Add l[0]`; the converted patch removes `/l` and then fails to add `/l/0` below the member it has
+    just removed — R ends up WITHOUT the list (a half-applied patch), while `diff.Apply` reconstructs L.
+    Both pairs are in the domain of C08's reconstruction theorem. -/
+theorem diff2patch_not_applicable_counterexample :
+    (diff [("a", .cont [("b", l "1")])] [] = [Mod.mkAdd "a.b" ⟨"int", "1"⟩] ∧
+     flatten (Ytk.apply [] (diff [("a", .cont [("b", l "1")])] [])) = flatten [("a", .cont [("b", l "1")])] ∧
+     applyDiffPatch [("a", .cont [("b", l "1")])] [] = (.cont [], [.err])) ∧
+    (diff [("l", .list [l "1"])] [("l", .list [l "2"])] = [Mod.mkDel "l", Mod.mkAdd "l[0]" ⟨"int", "1"⟩] ∧
+     flatten (Ytk.apply [("l", .list [l "2"])] (diff [("l", .list [l "1"])] [("l", .list [l "2"])])) =
+       flatten [("l", .list [l "1"])] ∧
+     applyDiffPatch [("l", .list [l "1"])] [("l", .list [l "2"])] = (.cont [], [.ok (), .err])) := by
+  decide +kernel
+
+/-- where it does work: members added at an existing parent and deleted members — every converted
+    operation succeeds and the patched R IS L.  (A differing scalar is reported as a Change whose `Value`
+    is the RIGHT document's scalar — `diff_table_rule` of C07 —, so the converted `replace` writes R's own
+    value back: it succeeds and changes nothing; such pairs are outside C08's `Compat` domain.) -/
+theorem nonvacuous_diff2patch :
+    applyDiffPatch [("a", l "1"), ("b", .cont [("c", l "2")])] [("b", .cont [("c", l "2")]), ("z", l "0")] =
+      (.cont [("a", l "1"), ("b", .cont [("c", l "2")])], [.ok (), .ok ()]) ∧
+    (diffPatch [("a", l "1"), ("b", .cont [("c", l "2")])] [("b", .cont [("c", l "3")]), ("z", l "0")]).map
+      (fun o => (o.op, o.path, o.value)) =
+        [("add", some ["a"], some (l "1")), ("replace", some ["b", "c"], some (l "3")), ("remove", some ["z"], none)] ∧
+    applyDiffPatch [("a", l "1"), ("b", .cont [("c", l "2")])] [("b", .cont [("c", l "3")]), ("z", l "0")] =
+      (.cont [("a", l "1"), ("b", .cont [("c", l "3")])], [.ok (), .ok (), .ok ()]) := by
+  decide +kernel
 
 end Ytk.C09
